@@ -79,7 +79,7 @@ func collectRefNodes(n cm.Node, out *[]string) {
 	}
 }
 
-var labelAtoms = []string{"a", "B", "ß", "ẞ", "SS", "ss", "İ", "i̇", "ǅ", "ǆ", "Σ", "σ", "ς", "É", "é", "k", "K", "K", " ", "  ", "\t", "\n", " \n ", "\\]", "\\[", "x", "Y", "1", "-", " ", "\f", " ", "Å", "å", "ﬁ", "fi"}
+var labelAtoms = []string{"a", "B", "ß", "ẞ", "SS", "ss", "İ", "i̇", "ǅ", "ǆ", "Σ", "σ", "ς", "É", "é", "k", "K", "K", " ", "  ", "\t", "\n", " \n ", "\\]", "\\[", "x", "Y", "1", "-", " ", "\f", " ", "Å", "å", "ﬁ", "fi", "\\", "a\\", "\\ ", "\\a", "\\2"}
 
 func genLabel(r *Rng) string { return genLabelFrom(r, labelAtoms) }
 
@@ -301,6 +301,14 @@ func runC12(c *Ctx) {
 // inlineSafeLabel: the label can be written inside one paragraph: no blank line inside it and every
 // continuation line starts with a letter (so that it cannot start a block or be a setext underline).
 func inlineSafeLabel(l string) bool {
+	// a label that ends in an odd number of backslashes escapes its own closing bracket: not a label
+	nb := 0
+	for i := len(l) - 1; i >= 0 && l[i] == '\\'; i-- {
+		nb++
+	}
+	if nb%2 == 1 {
+		return false
+	}
 	lines := strings.Split(l, "\n")
 	for i, ln := range lines {
 		t := strings.TrimLeft(ln, " \t")
